@@ -79,7 +79,8 @@ TListArrive == Is("ListArrive") /\ Same
 TListAnswer == Is("ListAnswer") /\ UNCHANGED avars /\ UNCHANGED <<cfg, lastN, answered>>
         /\ lastFail' = (IF E.ok THEN -1 ELSE E.t_us)
                /\ Step
-TListOK == Is("ListOK") /\ UNCHANGED <<cfg, lastN, answered>> /\ lastFail' = -1
+\* (the agent may take a list call for a success only if the proxy answered it successfully: lastFail = -1)
+TListOK == Is("ListOK") /\ UNCHANGED <<cfg, lastN, answered>> /\ lastFail = -1 /\ lastFail' = -1
         /\ loop = "listing" /\ loop' = "check" /\ retry' = 0 /\ slept' = TRUE
         /\ req' = (IF E.ids # <<>> /\ req = "none" THEN "listed" ELSE req)
         /\ UNCHANGED <<phase, checks, bad, streak, passed, lists, listsAfterCancel, cancelled, signalled, clock, reqAt, fwdBeforeSignal, exitCode>>
